@@ -244,6 +244,32 @@ func (rs *bodyStream) skipRest() error {
 		}
 
 		strCRLFLen := len(bytestr.StrCRLF)
+		// The handler may have stopped reading inside a chunk: the rest of that chunk is
+		// data, not framing, and must be skipped before the next chunk size is parsed.
+		if rs.chunkLeft > 0 {
+			for rs.chunkLeft > 0 {
+				skip := rs.reader.Len()
+				if skip == 0 {
+					if _, err := rs.reader.Peek(1); err != nil {
+						return err
+					}
+					skip = rs.reader.Len()
+				}
+				if skip > rs.chunkLeft {
+					skip = rs.chunkLeft
+				}
+				if err := rs.reader.Skip(skip); err != nil {
+					return err
+				}
+				if err := rs.reader.Release(); err != nil {
+					return err
+				}
+				rs.chunkLeft -= skip
+			}
+			if err := utils.SkipCRLF(rs.reader); err != nil {
+				return err
+			}
+		}
 		for {
 			chunkSize, err := utils.ParseChunkSize(rs.reader)
 			if err != nil {
